@@ -114,6 +114,18 @@ func Arr%d(n uint64) uint64 {
 	return uint64(len(z))
 }
 
+func LogLong%d(x uint64, s string) uint64 {
+	log.Printf("a fairly long message, about one hundred bytes long, so that anything that shortens it cuts here: %%d (* é ü *) \"%%s\" tail", x, s)
+	fmt.Println("ééééééééééééééééééééééééééééééééééééééééééééééééééééééééééééééé", x, "a second \"quoted\" string (* that follows", s)
+	if x > 5 {
+		panic("bad value: " + s)
+	}
+	if x > 7 {
+		panic(fmt.Sprintf("value %%d is \"too\" large (*", x))
+	}
+	return x
+}
+
 func LogPtr%d(p *uint64, q *uint64) uint64 {
 	log.Println(*p)
 	fmt.Println(*p, (*q)*2)
@@ -124,12 +136,12 @@ func LogPtr%d(p *uint64, q *uint64) uint64 {
 func Last%d() uint64 {
 	return 7
 }
-`, strings.ReplaceAll(docLines[0], "\n", " "), i, doc.String(), i, strings.ReplaceAll(docLines[0], "\n", " "), i, esc, esc, esc, esc, esc, i, strLit, i, i, i)
+`, strings.ReplaceAll(docLines[0], "\n", " "), i, doc.String(), i, strings.ReplaceAll(docLines[0], "\n", " "), i, esc, esc, esc, esc, esc, i, strLit, i, i, i, i)
 	key := "c05.text"
 	if quoted {
 		key = "c05.comment-odd-quote"
 	}
-	return c05Pkg{name: fmt.Sprintf("w%d", i), src: src, ndefs: 7, key: key}
+	return c05Pkg{name: fmt.Sprintf("w%d", i), src: src, ndefs: 8, key: key}
 }
 
 var typeCtorArity = map[string]int{"slice.T": 1, "mapT": 1, "arrayT": 1, "struct.t": 1, "zero_val": 1, "NewSlice": 2, "SliceGet": 3, "NewMap": 3}
@@ -239,6 +251,9 @@ func C05(c *ev.Ctx) {
 				if perr != nil {
 					c.Report("c05.syntax", fmt.Sprintf("file emitted for %s (flags %v) is not well-formed GooseLang: %v", p.name, flags, perr), map[string]string{"gen.go": p.src, "emitted.v": text})
 					continue
+				}
+				if dn := c05Duplicate(pf); dn != "" {
+					c.Violation("c05.duplicate-definition", fmt.Sprintf("%s (flags %v): %s is defined more than once (Coq rejects the second definition)", p.name, flags, dn), map[string]string{"gen.go": p.src, "emitted.v": text})
 				}
 				for _, d := range pf.Decls {
 					if d.Body == nil {
@@ -390,6 +405,9 @@ func c05Rich(c *ev.Ctx, flagSets [][]string) int {
 				c.Report("c05.syntax", fmt.Sprintf("file emitted for %s (flags %v) is not well-formed GooseLang: %v", p.Name, flags, perr), map[string]string{"gen.go": p.Source, "emitted.v": text})
 				continue
 			}
+			if dn := c05Duplicate(pf); dn != "" {
+				c.Violation("c05.duplicate-definition", fmt.Sprintf("%s (flags %v): %s is defined more than once (Coq rejects the second definition)", p.Name, flags, dn), map[string]string{"gen.go": p.Source, "emitted.v": text})
+			}
 			for _, d := range pf.Decls {
 				if d.Body == nil || (d.Kind != "def" && d.Kind != "structdecl") {
 					continue
@@ -482,4 +500,18 @@ func c05Stale(c *ev.Ctx, p c05Pkg) {
 		c.Violation("c05.stale-output", fmt.Sprintf("the file written over an earlier (longer) translation of the same package is not the translation of the current source (%d bytes, a fresh output directory gets %d): text that does not come from the source changes which definitions Coq sees", len(a), len(b)),
 			map[string]string{"got.v": string(a), "want.v": string(b)})
 	}
+}
+
+func c05Duplicate(pf *vparse.File) string {
+	seen := map[string]bool{}
+	for _, d := range pf.Decls {
+		if d.Name == "" || (d.Kind != "def" && d.Kind != "structdecl" && d.Kind != "tydef") {
+			continue
+		}
+		if seen[d.Name] {
+			return d.Name
+		}
+		seen[d.Name] = true
+	}
+	return ""
 }
